@@ -133,6 +133,11 @@ def run(ctx: core.Ctx) -> int:
         if "remove" in ops:
             ops = [o for o in ops if o != "remove"] + ["remove"]
         split = rng.choice([0, 1, n // 2, n])
+        if tf and rng.random() < 0.5:
+            # the members' own timeframe_fill flags differ (the Hexital's flag is what counts); gaps in the stream
+            rows = X.gen_rows(rng, n, late=0, ts_mode=rng.choice(["gaps", "biggaps"]))
+            a = dict(a, own_fill=rng.random() < 0.5)
+            b = dict(b, own_fill=not a["own_fill"])
         cases.append({"a": a, "b": b, "rows": rows, "split": split, "ops": ops, "target": target, "tf": tf,
                       "mid": rng.randrange(0, n - split) if n - split > 0 and rng.random() < 0.7 else None})
     hc = hxcorr.HxCorr(ctx, "C13")
